@@ -278,3 +278,14 @@ Proof.
   destruct (scipy _ _ _ _). reflexivity.
 Qed.
 End Lbfgsb.
+
+(* boolean equality of configurations, for the generated correspondence cases *)
+Definition sconf_eqb (a b : sconf) : bool :=
+  match a, b with
+  | CUniform n, CUniform n' => Z.eqb n n'
+  | CStratified x y, CStratified x' y' => Z.eqb x x' && Z.eqb y y'
+  | CSemistrat x y, CSemistrat x' y' => Z.eqb x x' && Z.eqb y y'
+  | CPoisson n s k, CPoisson n' s' k' => Z.eqb n n' && Z.eqb s s' && Z.eqb k k'
+  | CError, CError => true
+  | _, _ => false
+  end.
